@@ -302,6 +302,10 @@ func concCfg(prop string, cas int, tier string) ConcCfg {
 		c.NoCheck = true
 		c.OpsPer = 8
 		c.Hist = 12
+		if cas%8 == 3 {
+			c.BigBias, c.BigFile = true, true
+			c.Focus, c.FileFocus, c.HalfFreed, c.DirMoves, c.Evict = false, false, false, false, false
+		}
 		if cas%4 == 1 {
 			c.AbortHammer = true
 			c.HalfFreed, c.FileFocus, c.Focus = false, false, false
